@@ -13,6 +13,8 @@ THEOREMS = [
     "Claripy.Props.C02.fold_add_double_rne", "Claripy.Props.C02.fold_sub_double_rne", "Claripy.Props.C02.fold_mul_double_rne",
     "Claripy.Props.C02.fold_div_double_rne", "Claripy.Props.C02.fold_sqrt_double_rne", "Claripy.Props.C02.fold_neg_abs_double",
     "Claripy.Props.C02.fold_cmp_double", "Claripy.Props.C02.div_by_zero_spec", "Claripy.Props.C02.fold_float_rne_partial",
+    "Claripy.Props.C02.round_overflow_spec", "Claripy.Props.C02.round_floor_spec", "Claripy.Props.C02.round_directed_spec",
+    "Claripy.Props.C02.round_nearest_spec", "Claripy.Props.C02.round_exact_spec", "Claripy.Props.C02.value_order_spec",
     "Claripy.Props.C02.fold_ignores_rm_witness", "Claripy.Props.C02.int_to_float_double_rounding_witness",
     "Claripy.Props.C02.rna_round_up_wrong",
 ]
